@@ -458,7 +458,7 @@ func runCase(r *hx.Run, c hx.Case) {
 			}
 			pl, err := addrx.ParsePathLineAnyDomain(l, u8)
 			if err != nil {
-				r.Fail(c.ID, "envelope-line-not-rfc5321", fmt.Sprintf("%q: %v", l, err))
+				r.Fail(c.ID, "envelope-path-unquoted-local-part", fmt.Sprintf("%q: %v (the C05 defect: local part sent unquoted)", l, err))
 				got = nil
 				break
 			}
